@@ -106,12 +106,19 @@ class World:
 
     def _op_protos(self):
         protos = [self._mk("Box", []), self._mk("Translation", []), self._mk("IsotropicDeformation", [0.05])]
-        return protos, ["Box", "Tr", "Iso"]
+        names = ["Box", "Tr", "Iso"]
+        # the degenerate operand: an EMPTY composite (legal: the constructor only warns) contributes no elementary operation
+        try:
+            protos.append(self._mk("CompositeOperation", [[]]))
+            names.append("∅")
+        except (PyRaise, InterpUnsupported):
+            pass
+        return protos, names
 
     def fresh(self, k: int) -> Obj:
         self.uid += 1
         p = self.protos[k]
-        return Obj(p.cls, dict(p.attrs), self.uid)
+        return Obj(p.cls, {k_: (list(v_) if isinstance(v_, list) else v_) for k_, v_ in p.attrs.items()}, self.uid)
 
     def leaf_kind(self, o: Obj):
         best = None
@@ -133,6 +140,9 @@ class World:
         use (self.operands): + and * are expressions, their operands must still hold the same elements afterwards."""
         if t[0] == "leaf":
             o = self.fresh(t[1])
+            if self.comp_base in self.prog.mro(o.cls) and isinstance(o.attrs.get(self.item_attr), list):
+                # a composite used as a leaf (the empty composite): it contributes its elements, i.e. none
+                return o, [getattr(x, "uid", None) for x in o.attrs[self.item_attr]], list(o.attrs[self.item_attr])
             return o, [o.uid], [o]
         if t[0] == "add":
             a, ea, la = self.evaluate(t[1])
